@@ -55,11 +55,16 @@ def impl(case) -> str:
     class Chan(channel.SSHChannel):
         name = b"verif"
 
+        # "recv_adjust": n = the receiving application calls conn.adjustWindow(channel, n) from inside the callbacks
         def dataReceived(self, data):
             events.append("r" + bytes(data).hex())
+            if case.get("recv_adjust") is not None:
+                self.conn.adjustWindow(self, case["recv_adjust"])
 
         def extReceived(self, dataType, data):
             events.append(f"e{dataType}:" + bytes(data).hex())
+            if case.get("recv_adjust") is not None:
+                self.conn.adjustWindow(self, case["recv_adjust"])
 
         def closed(self):
             events.append("z")
@@ -78,13 +83,18 @@ def impl(case) -> str:
             self.depth += 1
             try:
                 for h in script:
+                    # every call the hook makes is logged at call time (hw/hx/hl): hooks nest (a write made from
+                    # stopWriting() may itself run out of window), and the oracle needs the true call order
                     if h[0] == "w":
+                        events.append("hw" + h[1])
                         self.write(bytes.fromhex(h[1]))
                     elif h[0] == "l":
                         # ["l"]: loseConnection() on every invocation; ["l", k]: on the k-th invocation only
                         if len(h) == 1 or h[1] == self.calls[which]:
+                            events.append("hl")
                             self.loseConnection()
                     else:
+                        events.append(f"hx{h[1]}:{h[2]}")
                         self.writeExtended(h[1], bytes.fromhex(h[2]))
             finally:
                 self.depth -= 1
@@ -147,12 +157,22 @@ def oracle(case, obs):
             and not any(h[0] in "wx" for h in case["stop_hook"]):
         f.reason = "[loseConnection() called from stopWriting()] " + f.reason
         f.tag = "close-request-lost-during-extbuf-flush"
-    elif f is not None and any(h[0] in "wx" for h in case.get("stop_hook") or []) and "-" in obs:
-        # writes made from inside stopWriting(): known finding (the hook runs before write()/writeExtended() have
-        # accounted for the bytes they are about to send)
-        f.reason = "[stopWriting() hook writes] " + f.reason
-        f.tag = "reentrant-write-from-stopWriting"
+    elif f is not None and f.tag == "ext-stream-order" and any(h[0] == "x" for h in case.get("stop_hook") or []) \
+            and "adj" in f.reason.split("->")[0]:
+        # writeExtended() from the stopWriting() that fires while addWindowBytes re-writes detached extBuf entries
+        f.reason = "[writeExtended() from stopWriting() during the extBuf flush] " + f.reason
+        f.tag = "reentrant-writeExtended-during-extbuf-flush"
     return f
+
+
+def _strip_hook_calls(obs):
+    """the hw/hx/hl markers are the harness's own calls, not part of the model's observation"""
+    head, _, tail = obs.partition(" |")
+    ops = []
+    for tok in head.split(" "):
+        evs = [e for e in tok.split(",") if not e.startswith("h")]
+        ops.append(",".join(evs) if evs else ".")
+    return " ".join(ops) + " |" + tail
 
 
 def _oracle(case, obs):
@@ -170,7 +190,6 @@ def _oracle(case, obs):
     want_close = False              # loseConnection() called or CLOSE received
     rclosed = False
     zs = 0
-    ncalls = {"+": 0, "-": 0}
     for k, (op, evs) in enumerate(zip(ops, per)):
         where = f"op {k} {op} -> {evs}: "
         es = [] if evs == "." else evs.split(",")
@@ -256,18 +275,17 @@ def _oracle(case, obs):
                     return Failure(case, where + "closed() called twice or before both directions closed",
                                    "closed-callback")
             elif c in "+-":
-                # the hook writes synchronously: its data is handed to write()/writeExtended() at this very point
-                ncalls[c] += 1
-                for h in (case.get("start_hook") if c == "+" else case.get("stop_hook")) or []:
-                    if closed:
-                        break
-                    if h[0] == "w":
-                        wr += bytes.fromhex(h[1])
-                    elif h[0] == "l":
-                        if len(h) == 1 or h[1] == ncalls[c]:
-                            want_close = True       # loseConnection() from inside the hook (last element of a script)
+                pass
+            elif c == "h":
+                # a call made by the application from inside a hook, at this very point
+                if e[1] == "l":
+                    want_close = True
+                elif not closed:
+                    if e[1] == "w":
+                        wr += bytes.fromhex(e[2:])
                     else:
-                        xwr += [(h[1], b) for b in bytes.fromhex(h[2])]
+                        t, d = e[2:].split(":", 1)
+                        xwr += [(int(t), b) for b in bytes.fromhex(d)]
             else:
                 return Failure(case, where + "unknown event", "log")
         if kind in ("rd", "rx"):
@@ -375,6 +393,8 @@ def gen(rng, tier):
                     else:
                         ops.append([a[0]])
                 case = {"rw": rw, "rmp": rmp, "lw": lw, "lmp": lmp, "ops": ops}
+                if any(o[0] in ("rd", "rx") for o in ops) and rng.random() < 0.3:
+                    case["recv_adjust"] = rng.choice([1, 3, 8])
                 if any(o[0] == "adj" for o in ops) and rng.random() < 0.4:
                     case["start_hook"] = rng.choice([[["w", "fbfc"]], [["x", 1, "fb"]], [["w", "fb"], ["x", 2, "fcfb"], ["w", "fc"]]])
                 cases.append(case)
@@ -399,6 +419,8 @@ def gen(rng, tier):
         if rng.random() < 0.5:
             ops.append(["adj", BIG])       # drain: everything still buffered must come out, in order
         case = {"rw": rw, "rmp": rmp, "lw": lw, "lmp": lmp, "ops": ops}
+        if rng.random() < (0.5 if mix == "recv" else 0.15):
+            case["recv_adjust"] = rng.choice(adjs)
         r = rng.random()
         if r < 0.35:
             case["start_hook"] = _hook_script(rng, sizes, 251)
@@ -445,13 +467,18 @@ def corpus():
          "ops": [["w", h("abcd")], ["adj", 2], ["adj", 1], ["adj", 9]]},
         {"rw": 0, "rmp": 2, "lw": 8, "lmp": 8, "start_hook": [["x", 1, "fbfc"], ["w", "fb"]],
          "ops": [["x", 1, h("abc")], ["w", h("de")], ["adj", 1], ["adj", 3], ["lose"], ["adj", 9]]},
+        # the application re-opens the window from inside dataReceived(); max packet larger than half the window
+        {"rw": 0, "rmp": 1, "lw": 8, "lmp": 8, "recv_adjust": 8,
+         "ops": [["rd", h("abc")], ["rd", h("defghijk")], ["rd", h("lmnopqrs")], ["rx", 1, h("tuvwxyz0")]]},
+        {"rw": 0, "rmp": 1, "lw": 4, "lmp": 4, "recv_adjust": 1,
+         "ops": [["rd", h("a")], ["rd", h("bcde")], ["rd", h("fghi")], ["rd", h("jk")], ["rd", h("lmno")]]},
         # loseConnection() from the stopWriting() that fires WHILE addWindowBytes re-writes the extBuf entries
         {"rw": 0, "rmp": 4, "lw": 8, "lmp": 8, "stop_hook": [["l", 2]],
          "ops": [["x", 1, h("abcdef")], ["adj", 2], ["adj", 20]]},
         {"rw": 1, "rmp": 2, "lw": 8, "lmp": 8, "stop_hook": [["l", 3]],
          "ops": [["x", 1, h("abc")], ["x", 2, h("de")], ["adj", 1], ["adj", 1], ["w", h("f")], ["adj", 20]]},
         {"rw": 0, "rmp": 4, "lw": 8, "lmp": 8, "start_hook": [["w", "fb"], ["l"]], "ops": [["w", h("abc")], ["adj", 9]]},
-        # known finding: writing from inside stopWriting()
+        # writing from inside stopWriting(): the window must already be charged when the hook runs
         {"rw": 4, "rmp": 10, "lw": 8, "lmp": 8, "stop_hook": [["x", 1, "fdfe"]], "ops": [["w", h("abcdefgh")], ["adj", 20]]},
         {"rw": 4, "rmp": 10, "lw": 8, "lmp": 8, "stop_hook": [["w", "fdfe"]], "ops": [["x", 1, h("abcdefgh")], ["adj", 20]]},
         # 1-byte local window
@@ -489,10 +516,11 @@ def _op(o):
 def to_coq(case):
     if case["rmp"] < 1 or case["lw"] < 1 or case["lmp"] < 1 or case.get("stop_hook") \
             or any(h[0] == "l" for h in case.get("start_hook") or []):
-        return None         # writes from inside stopWriting() are outside the modelled fragment (known finding)
+        return None         # stopWriting() hooks and loseConnection() from hooks: oracle only (not in the Coq model)
     hook = coq_list([f"HWrite {_hx(h[1])}" if h[0] == "w" else f"HWriteExt {h[1]}%N {_hx(h[2])}"
                      for h in case.get("start_hook") or []], "hop")
-    return (f"(true, {hook}, ({case['rw']}%N, {case['rmp']}%N, {case['lw']}%N, {case['lmp']}%N), "
+    radj = "(@None N)" if case.get("recv_adjust") is None else f"(Some {case['recv_adjust']}%N)"
+    return (f"(true, {hook}, {radj}, ({case['rw']}%N, {case['rmp']}%N, {case['lw']}%N, {case['lmp']}%N), "
             f"{coq_list(map(_op, case['ops']), 'op')})")
 
 
@@ -542,6 +570,7 @@ SPEC = Spec(
     coq_header="From C36 Require Import Model Run.",
     coq_fn="run_show",
     to_coq=to_coq,
+    model_equal=lambda c, a, b: _strip_hook_calls(a) == b,
     nontrivial=lambda c, o: any(t in o.split(" |")[0] for t in ("D", "X", "C", "A")),
     histogram=histogram,
     rule="every history up to depth 3 (quick; deepest level sampled 50%) / 4 (thorough, 15%) over a 12-letter alphabet "
@@ -551,7 +580,8 @@ SPEC = Spec(
          "WINDOW_ADJUST; 32-bit window sizes; non-trivial = at least one data/ext/close/adjust packet sent; "
          "35% of the random and 40% of the exhaustive histories with a WINDOW_ADJUST run on a channel whose startWriting() "
          "hook writes 1-3 chunks of normal/extended data synchronously, 10% on one whose stopWriting() hook does (oracle only); "
-         "distinct by (case, observation)",
+         "in half of the receive-heavy and 15% of the other random histories (30% of the exhaustive ones that receive) the "
+         "application calls conn.adjustWindow(n) from inside dataReceived/extReceived; distinct by (case, observation)",
     trusted=["hand-written model coq/C36/Model.v (tied by this correspondence run only)",
              "fake transport records sendPacket; the harness plays the peer by calling SSHConnection.packetReceived with "
              "well-formed payloads (declared string length = actual length)",
